@@ -245,6 +245,9 @@ func checkC12(p *Program, r *Report) {
 		}
 	}
 
+	// ---- the notations CQL values are built from ([bytes], [short bytes], counts)
+	primitiveLayout(p, r, "notation-layout", 4, map[string]bool{"bytes": true, "shortbytes": true, "int": true, "short": true})
+
 	// ---- container-layout
 	pe := newPenum(p)
 	vers := supportedVersions(p, pe)
